@@ -115,7 +115,7 @@ def replay_case(st, out):
     # the compound key is realised as a plain tuple and, in one more pass, as a namedtuple (a tuple subclass
     # whose constructor does not take one iterable): the same abstract value for a mapping
     uses_tk = any(s['arg'].get('k') == 'sent' for s in st['steps'])
-    passes = [(codec.PLAIN, False, ('a', 'b')), (codec.LOGGING, True, ('a', 'b'))] + ([(codec.PLAIN, False, PointKey('a', 'b'))] if uses_tk else [])
+    passes = [(codec.PLAIN, False, ('a', 'b')), (codec.FALSY_LOGGING, True, ('a', 'b'))] + ([(codec.PLAIN, False, PointKey('a', 'b'))] if uses_tk else [])
     for classes, logging, tk in passes:
         codec.SENT['TK'] = tk
         for name, mk in spellings(st['steps']):
